@@ -50,7 +50,7 @@ PROPS["C09"] = {
 }
 
 PROPS["C02"] = {
-    "suites": [("comp_buf", "gen_c02"), ("comp_xml", "gen_session")],
+    "suites": [("comp_buf", "gen_c02"), ("comp_buf", "gen_c02_constants"), ("comp_xml", "gen_session")],
     "rule": "one message of every kind in two sizes, text with > < & quotes non-ASCII ]]> in 6 XML spellings (library to_string, compact, indented, single quotes + reversed attributes, "
             "explicit empty elements + raw '>' in text + declaration in single quotes, attributes on separate lines + CRLF); per stream all 1-cut partitions, all 2-cut partitions when "
             "short (sampled otherwise), character-by-character, whole; thresholds {exactly fitting, one below (outside the hypothesis), 2048, disabled}; sequences of 2-5 messages with random "
@@ -96,7 +96,7 @@ PROPS["C12"] = {
     "assumptions": ["driver definitions are well-formed (Spec.Dev.WF: valid states/permissions/rules, number formats of C10's family, distinct property names)"],
 }
 PROPS["C14"] = {
-    "suites": [("comp_dev", "gen_c14"), ("comp_nested", "gen_cases")],
+    "suites": [("comp_dev", "gen_c14"), ("comp_nested", "gen_cases"), ("comp_nested", "gen_two_instances")],
     "rule": "handler configurations 0-2 Write and 0-2 Change handlers per element, plain and coroutine, vetoing or not, on elements of every kind; write sequences with changing and "
             "unchanged values via client message, set_value() and direct assignment, on enabled and disabled properties; distinct by (device state, operation list)",
     "trusted_base": ["instrumented handlers record (id, event, payload, element._value); coroutine handlers run on a real asyncio loop after the operation"],
@@ -111,7 +111,7 @@ PROPS["C15"] = {
     "assumptions": ["well-formed stream: BLOB payloads decodable with consistent size (Spec.Cli.streamOk); ill-formed ones are compared with the model only"],
 }
 PROPS["C16"] = {
-    "suites": [("comp_cli", "gen_c16")],
+    "suites": [("comp_cli", "gen_c16"), ("comp_nested", "gen_inflight")],
     "rule": "streams as in C15 interleaved with onevent/rmonevent (by id, by any subset of criteria incl. callback identity with bound methods, remove-all) at arbitrary points; callbacks plain, "
             "coroutine, raising; exhaustive filter combinations {absent, matching, non-matching}^3 x 4 event types on a fixed stream; a catch-all callback's log feeds the chain oracle; "
             "distinct by operation list",
@@ -165,7 +165,7 @@ PROPS["C01"] = {
                     "a client that did not enable BLOBs is not sent setBLOBVector (protocol): of a BLOB property it is required to know the definition, not the updates"],
 }
 PROPS["C06"] = {
-    "suites": [("comp_sys", "gen_c06")],
+    "suites": [("comp_sys", "gen_c06"), ("comp_sys", "gen_c06_pending")],
     "rule": "generated multi-device deployments (as for C01, every property enabled) x random (client, device, property, non-empty element subset) targets x values of the element's domain "
             "(texts with markup, quotes, non-ASCII, inner whitespace; numbers in plain decimal and sexagesimal notation with all three separators; both switch states; byte strings) x "
             "fragmentation {1024, 1, random}; before/after snapshots of EVERY driver judged by Spec.Sys.c06Holds, the writer's mirror by Spec.Sys.synced, the step by Sys.nextOk",
@@ -173,7 +173,7 @@ PROPS["C06"] = {
     "assumptions": ["switch elements not named in the write may change under the property's rule (C09 decides how)"],
 }
 PROPS["C08"] = {
-    "suites": [("comp_sys", "gen_c08"), ("comp_sys", "gen_c08_burst"), ("comp_num", "gen_b64")],
+    "suites": [("comp_sys", "gen_c08"), ("comp_sys", "gen_c08_burst"), ("comp_buf", "gen_c02_constants"), ("comp_num", "gen_b64")],
     "rule": "byte strings of every length 0..39 and around the 1024-byte read size and the 2048-character threshold (thorough: every 13th length up to 3100, all of 700..800 and 1500..1560, "
             "100 kB and 1 MB), random contents and all 256 byte values, formats {.fits, .x, empty} x fragmentation {1024, 1, random} x clients {network (BLOB connection Only), network with "
             "Also on the control connection, in-process snooping client (Never)} x direction (driver publishes; client uploads), each followed by ordinary traffic that must still arrive; "
